@@ -55,6 +55,11 @@ CHECKS["C19"] = ("exploration",
     "Every fitted tree of the C09 dataset/configuration grid is printed with no names, with name lists of every length 0..d+1 and as ndarray; the text is parsed back into nested threshold rules which must assign every point of a query lattice the cluster predict gives, name each used feature correctly, and lists that cannot name a used feature, unfitted models and foreign objects must be refused.",
     "Feature names without comparison operators; thresholds round-trip through Python float repr.",
     "5/C19")
+CHECKS["C07"] = ("model_checking",
+    "stateless deviation-bounded exploration of environment answers (score level, dying features per epoch) driving the real path controller; plus real-model paths observed through compute_val_score; contract reference on observations",
+    "The real _path/path code (stopping, histories, best-weights bookkeeping, restore) is driven on subclasses of the real sparse estimators whose numerics are scripted: every epoch consumes one environment answer; ALL scripts with a bounded total number of deviations (configuration arguments incl. out-of-range values + non-default answers among the first 8 epochs) are executed and judged by a reference of the documented contract (equal-length histories, alpha growth, recorded counts/penalties, stopping at min_features unless NaN, best weights = last step within keep_threshold of the best all-features score, restore iff requested and not dynamic, warnings for replaced arguments, termination). The same reference judges real path() runs of the 5 sparse estimators over a configuration grid.",
+    "The early-stopping rule inside a step is observed, not predicted (only the documented bounds on epochs per step are asserted).",
+    "5/C07")
 NOT_APPLICABLE = {}
 
 def main():
